@@ -32,8 +32,9 @@ CLAIM = dict(
           "reservations only at the two ends of the range a placement whose demand fits between them - in particular "
           "one that is feasible by the placers' own accounting (capacity minus reserved magnitudes) - always "
           "succeeds.  Tied to greedy.py by exact correspondence (allocations, error kind, failing resource and "
-          "chip) on thousands of generated problems per run with the Lean predicate `Valid` run on every "
-          "allocation the implementation returns."),
+          "chip) on thousands of generated problems per run - quantities from 0 to beyond 2^100 (the model is "
+          "over unbounded Int; the JSON protocol carries them exactly), identifiers of any hashable type - with "
+          "the Lean predicate `Valid` run on every allocation the implementation returns."),
     design="3/C05",
     note=("Vertex order per chip = iteration order of the `placements` dict, passed to the model as a list; theorems "
           "hold for every order.  Domain (hypotheses of the theorems, applied to the generators): requirements >= 0, "
@@ -47,15 +48,71 @@ THEOREMS += ['gen_slices_overlap', 'gen_align']   # translator tie: generated fu
 RULE = ("machines 1-3 x 1-3 with 1-3 resources, per-chip exceptions and dead chips; 1-6 used chips, 0-12 vertices "
         "per chip placed in shuffled (interleaved) order, demands incl. 0 and absent resources; up to 6 global and "
         "6 local reservations per resource (prefix, suffix, interior, adjacent, nested/overlapping, empty, partly "
-        "outside the range); alignments {1,2,3,4,8} incl. repeated align constraints; a stream built to satisfy "
-        "the completeness hypothesis (no alignment, reservations at the ends, demand fits exactly or with slack) "
-        "and a malformed stream (alignment 0, unknown resource, dead chip, vertex without resources, negative "
-        "demand) compared with the model only.  Non-trivial: >= 2 ranges of one resource on one chip and either a "
-        "gap forced by a reservation/alignment or an InsufficientResourceError raised with reservations present; "
-        "distinct = distinct canonical JSON")
+        "outside the range).  Quantities (capacities, requests, reservation bounds, alignments) in three size "
+        "classes over the whole range of Python ints: small (0-64; 66%), medium (2^20-2^27; 8%) and huge (26%: "
+        "capacities k*B+-few for B in {2^31, 2^32, 2^53, 2^54, 2^63, 2^64, 2^100}, requests 2^53+-1, 2^53+3, "
+        "2^63+1, 2^64+-1, 2^100+1, B+-1, odd random values, so that resource pointers sit on integers no double "
+        "represents).  Alignments: 1,2,4,8 and non-powers of two (3,5,6,7,10,12,24,100,1000,1000003), 2^31+1, "
+        "2^53+1, 2^64-1, alignments equal to / larger than the resource, repeated align constraints; zero-size "
+        "requests under every alignment.  Legal but unusual argument shapes: constraints duplicated, in any "
+        "order, passed as list / tuple / one-shot iterator, constraints naming resources the machine lacks or "
+        "chips outside the machine, resources named by ints, strings, bytes, tuples, frozensets, rig's sentinels "
+        "or plain objects, vertices named by ints, strings, tuples or objects, unplaced vertices.  A stream built "
+        "to satisfy the completeness hypothesis (no alignment, reservations at the ends, demand fits exactly or "
+        "with slack) and a malformed stream (alignment 0, unknown resource, dead chip, vertex without resources, "
+        "negative demand) compared with the model only; slices_overlap / align compared directly on small and "
+        "huge integers.  Non-trivial: >= 2 ranges of one resource on one chip and either a gap forced by a "
+        "reservation/alignment or an InsufficientResourceError raised with reservations present; distinct = "
+        "distinct canonical JSON")
 
 
 # ---------------------------------------------------------------- generators
+HUGE_BASES = [2 ** 31, 2 ** 32, 2 ** 53, 2 ** 53, 2 ** 53, 2 ** 54, 2 ** 63, 2 ** 64, 2 ** 64, 2 ** 100]
+EDGE_DEMANDS = [2 ** 53 + 1, 2 ** 53 - 1, 2 ** 53 + 3, 2 ** 54 + 2, 2 ** 31 + 1, 2 ** 32 - 1, 2 ** 63 + 1,
+                2 ** 64 - 1, 2 ** 64 + 1, 2 ** 100 + 1, 3 * 2 ** 52 + 1]
+RES_STYLES = ["int", "str", "tuple", "object", "sentinel", "frozenset", "bytes"]
+VERTEX_STYLES = ["int", "str", "tuple", "object"]
+
+
+class Named(object):
+    """an arbitrary hashable user object (identity hash), printable for error messages"""
+
+    def __init__(self, name):
+        self.name = name
+
+    def __repr__(self):
+        return "<%s>" % self.name
+
+
+def res_object(style, r):
+    """the Python object that names resource number r"""
+    if style == "int":
+        return r
+    if style == "str":
+        return "res%d" % r
+    if style == "tuple":
+        return ("res", r)
+    if style == "frozenset":
+        return frozenset([("res", r)])
+    if style == "bytes":
+        return b"res%d" % r
+    if style == "sentinel":
+        from rig.place_and_route.machine import Cores, SDRAM, SRAM
+        if r < 3:
+            return (Cores, SDRAM, SRAM)[r]
+    return Named("res%d" % r)
+
+
+def vertex_object(style, v):
+    if style == "int":
+        return v
+    if style == "str":
+        return "v%d" % v
+    if style == "tuple":
+        return ("vertex", v, None)
+    return Named("v%d" % v)
+
+
 def gen_reservations(rng, cap, n, ends_only):
     """n reservation slices for a range [0, cap)"""
     out = []
@@ -104,8 +161,23 @@ def gen_case(rng, mode):
     """mode: 'general' | 'ends' | 'malformed' | 'single'"""
     w, h = rng.randint(1, 3), rng.randint(1, 3)
     nres = rng.randint(1, 3)
-    big = rng.random() < 0.1
-    capset = [0, 1, 2, 5, 8, 16, 17, 18, 31, 40, 64] if not big else [2 ** 20, 2 ** 27, 1000003]
+    # size class of the quantities of this problem: resources are plain Python ints of any size
+    zc = rng.random()
+    if zc < 0.66:
+        scale = "small"
+        capset = [0, 1, 2, 5, 8, 16, 17, 18, 31, 40, 64]
+        alignset = [1, 2, 4, 8, 3, 2, 4, 5, 6, 7, 12, 100]
+    elif zc < 0.74:
+        scale = "medium"
+        capset = [2 ** 20, 2 ** 27, 1000003, 2 ** 27, 2 ** 20 + 1, 2 ** 27]
+        alignset = [1, 2, 4, 8, 3, 7, 1000, 4096, 1000003, 2 ** 27 + 1]
+    else:
+        scale = "huge"
+        base = rng.choice(HUGE_BASES)
+        capset = [base + k for k in (-3, -1, 0, 0, 1, 2, 5)] + [2 * base + 1, 3 * base, 4 * base, 4 * base + 7]
+        alignset = [1, 1, 2, 3, 4, 5, 6, 7, 8, 10, 12, 24, 1000, 4096, 1000003,
+                    2 ** 31, 2 ** 31 + 1, 2 ** 32, 2 ** 53, 2 ** 53 + 1, 2 ** 64 - 1,
+                    base, base + 1, base // 3 + 1, 4 * base + 8, 2 ** 101]
     chip_resources = [[r, rng.choice(capset[2:] if rng.random() < 0.9 else capset)] for r in range(nres)]
     if rng.random() < 0.3:
         rng.shuffle(chip_resources)
@@ -134,7 +206,7 @@ def gen_case(rng, mode):
         for r in range(nres):
             if rng.random() < 0.45:
                 for _ in range(1 if rng.random() < 0.8 else 2):
-                    a = rng.choice([1, 2, 4, 8, 3, 2, 4])
+                    a = rng.choice(alignset)
                     aligns[r] = a
                     constraints.append({"k": "align", "res": r, "a": a})
     elif rng.random() < 0.3:
@@ -156,6 +228,15 @@ def gen_case(rng, mode):
             constraints.append({"k": "reserve", "res": r, "start": 0, "stop": 3, "loc": list(c)})
     if rng.random() < 0.2:
         constraints.append({"k": "other"})
+    if constraints and rng.random() < 0.25:
+        for _ in range(rng.choice([1, 1, 2])):
+            constraints.append(dict(rng.choice(constraints)))       # duplicated constraint
+    if rng.random() < 0.12:
+        # constraints naming a resource the machine does not have / a chip outside the machine
+        constraints.append({"k": "reserve", "res": 5, "start": 0, "stop": 4, "loc": None})
+        constraints.append({"k": "align", "res": 6, "a": rng.choice([2, 3, 2 ** 53 + 1])})
+        constraints.append({"k": "reserve", "res": 0, "start": 0, "stop": rng.choice(capset) + 1,
+                            "loc": [w + 1, h]})
     rng.shuffle(constraints)
 
     # vertices
@@ -191,6 +272,12 @@ def gen_case(rng, mode):
                         d = left            # fill exactly
                     elif tight > 0.85 and z > 0.8:
                         d = left + rng.randint(1, 3)    # over-demand
+                    elif scale == "huge" and z < 0.5:
+                        # leave the pointer on values that no double represents exactly
+                        d = rng.choice(EDGE_DEMANDS + [base + 1, base - 1, base // 2 + 1, 1, 3, 5])
+                        if d > left and rng.random() < 0.9:
+                            d = rng.randint(0, left) | 1
+                            d = d if d <= left else left
                     else:
                         d = rng.randint(0, max(1, left // max(1, nv - i)))
                         if not ends and r in aligns and rng.random() < 0.5:
@@ -212,7 +299,11 @@ def gen_case(rng, mode):
     case = {"vr": vr,
             "machine": {"width": w, "height": h, "chip_resources": chip_resources,
                         "exceptions": exceptions, "dead": [list(c) for c in dead]},
-            "constraints": constraints, "placements": placements, "mode": mode}
+            "constraints": constraints, "placements": placements, "mode": mode, "scale": scale,
+            # how the identifiers are spelled on the Python side (any hashable is legal)
+            "names": {"res": [rng.choice(RES_STYLES) for _ in range(8)],
+                      "vertex": rng.choice(VERTEX_STYLES),
+                      "containers": rng.choice(["list", "list", "tuple", "iter"])}}
     if mode == "malformed":
         what = rng.choice(["align0", "unknown-res", "dead-chip", "missing-vr", "neg-demand", "outside"])
         case["malformed"] = what
@@ -245,28 +336,55 @@ def impl_allocate(case, limit=None):
         ReserveResourceConstraint, AlignResourceConstraint, RouteEndpointConstraint)
     from rig.place_and_route.exceptions import InsufficientResourceError
     from rig.routing_table import Routes
+    names = case.get("names") or {"res": ["int"] * 8, "vertex": "int", "containers": "list"}
+    robj, vobj = {}, {}
+
+    def R(r):
+        if r not in robj:
+            robj[r] = res_object(names["res"][r % len(names["res"])], r)
+        return robj[r]
+
+    def V(v):
+        if v not in vobj:
+            vobj[v] = vertex_object(names["vertex"], v)
+        return vobj[v]
     m = case["machine"]
     machine = Machine(m["width"], m["height"],
-                      chip_resources=dict((r, c) for r, c in m["chip_resources"]),
+                      chip_resources=dict((R(r), c) for r, c in m["chip_resources"]),
                       chip_resource_exceptions=dict(
-                          (tuple(xy), dict((r, c) for r, c in rs)) for xy, rs in m["exceptions"]),
+                          (tuple(xy), dict((R(r), c) for r, c in rs)) for xy, rs in m["exceptions"]),
                       dead_chips=set(tuple(c) for c in m["dead"]))
     constraints = []
     for c in case["constraints"]:
         if c["k"] == "reserve":
             constraints.append(ReserveResourceConstraint(
-                c["res"], slice(c["start"], c["stop"]),
+                R(c["res"]), slice(c["start"], c["stop"]),
                 None if c["loc"] is None else tuple(c["loc"])))
         elif c["k"] == "align":
-            constraints.append(AlignResourceConstraint(c["res"], c["a"]))
+            constraints.append(AlignResourceConstraint(R(c["res"]), c["a"]))
         else:
             constraints.append(RouteEndpointConstraint(object(), Routes.north))
+    if names["containers"] == "tuple":
+        constraints = tuple(constraints)
+    elif names["containers"] == "iter":
+        constraints = iter(constraints)
     vr = {}
     for v, rs in case["vr"]:
-        vr[v] = dict((r, d) for r, d in rs)
+        vr[V(v)] = dict((R(r), d) for r, d in rs)
     placements = {}
     for v, xy in case["placements"]:
-        placements[v] = tuple(xy)
+        placements[V(v)] = tuple(xy)
+    rid = dict((id(o), r) for r, o in robj.items())
+    vid = dict((id(o), v) for v, o in vobj.items())
+
+    def back(table, objs, o):
+        """number of the identifier object `o` (by identity, else by equality)"""
+        if id(o) in table:
+            return table[id(o)]
+        for k, oo in objs.items():
+            if type(oo) is type(o) and oo == o:
+                return k
+        return None
     old = signal.signal(signal.SIGVTALRM, _on_vtalrm)
     signal.setitimer(signal.ITIMER_VIRTUAL, limit or HANG_LIMIT_S)
     try:
@@ -279,10 +397,12 @@ def impl_allocate(case, limit=None):
         return {"err": "NoTermination"}
     except InsufficientResourceError as e:
         r = {"err": "InsufficientResourceError"}
-        mm = re.match(r"^(-?\d+) over-allocated on chip \((-?\d+), (-?\d+)\)$", str(e))
-        if mm:
-            r["res"] = int(mm.group(1))
-            r["xy"] = [int(mm.group(2)), int(mm.group(3))]
+        # "{resource} over-allocated on chip {xy}": find which resource / chip it names
+        for rr, o in robj.items():
+            for _, xy in case["placements"]:
+                if str(e) == "{} over-allocated on chip {}".format(o, tuple(xy)):
+                    r["res"] = rr
+                    r["xy"] = list(xy)
         return r
     except (KeyError, IndexError, ZeroDivisionError) as e:
         return {"err": type(e).__name__}
@@ -292,14 +412,22 @@ def impl_allocate(case, limit=None):
     bad = None
     if not isinstance(out, dict):
         return {"ok": None, "bad": "result is not a dict: %r" % (out,)}
-    for v, va in out.items():
+    for vo, va in out.items():
+        v = back(vid, vobj, vo)
+        if v is None or not isinstance(va, dict):
+            bad = "result key %r is not one of the placed vertices / its value is not a dict" % (vo,)
+            continue
         row = []
-        for r, s in va.items():
-            if not isinstance(s, slice) or s.step not in (None, 1) or \
-                    not isinstance(s.start, int) or not isinstance(s.stop, int):
-                bad = "vertex %r resource %r: not a contiguous integer range: %r" % (v, r, s)
+        for ro, sl in va.items():
+            r = back(rid, robj, ro)
+            if r is None:
+                bad = "vertex %r: %r is not one of the resources" % (vo, ro)
                 continue
-            row.append([r, s.start, s.stop])
+            if not isinstance(sl, slice) or sl.step not in (None, 1) or \
+                    not isinstance(sl.start, int) or not isinstance(sl.stop, int):
+                bad = "vertex %r resource %r: not a contiguous integer range: %r" % (vo, ro, sl)
+                continue
+            row.append([r, int(sl.start), int(sl.stop)])
         res.append([v, sorted(row)])
     r = {"ok": sorted(res)}
     if bad:
@@ -340,15 +468,17 @@ def gaps(case, ok):
 def judge(ctx, cases, limit=None):
     """Run implementation, model and the Lean oracles on every case.  Returns one
     verdict dict per case: viol = [(key, what)], mismatch = str | None, tags, nontriv.
-    Stops early (returns fewer verdicts) after two non-terminating calls."""
+    Stops early (returns fewer verdicts) after eight non-terminating calls."""
     reqs = []
     hangs = 0
     impls = []
     for c in cases:
-        impls.append(impl_allocate(c, limit))
+        # the first non-terminating call gets the full CPU limit; once one has been seen the others are
+        # cut short (they only add tags), and after a few the batch ends: do not burn the time budget
+        impls.append(impl_allocate(c, limit if hangs == 0 else 0.5))
         if impls[-1].get("err") == "NoTermination":
             hangs += 1
-            if hangs >= 2:      # enough evidence; do not burn the time budget
+            if hangs >= 8:
                 break
     cases = cases[:len(impls)]
     for c, impl in zip(cases, impls):
@@ -374,7 +504,13 @@ def judge(ctx, cases, limit=None):
         if cmp_impl != model_cmp:
             v["mismatch"] = "impl=%r model=%r" % (impl, model)
         nresv = sum(1 for x in c["constraints"] if x["k"] == "reserve")
-        v["tags"] += ["mode_" + c.get("mode", "?"), "domain_" + ("in" if in_dom else "out")]
+        v["tags"] += ["mode_" + c.get("mode", "?"), "domain_" + ("in" if in_dom else "out"),
+                      "scale_" + c.get("scale", "corpus")]
+        if "names" in c:
+            v["tags"].append("vertex_named_by_" + c["names"]["vertex"])
+            v["tags"].append("constraints_as_" + c["names"]["containers"])
+        if any(x["k"] == "align" and x["a"] not in (1, 2, 4, 8) for x in c["constraints"]):
+            v["tags"].append("alignment_not_small_power_of_two")
         if hyps["feasible"] and in_dom:
             v["tags"].append("completeness_hypothesis_holds")
         if "ok" in impl:
@@ -394,6 +530,8 @@ def judge(ctx, cases, limit=None):
                     v["tags"].append("forced_gap")
                 if any(a == b for _, va in impl["ok"] for _, a, b in va):
                     v["tags"].append("zero_size_range")
+                if any(a > 2 ** 53 and a % 2 == 1 for _, va in impl["ok"] for _, a, b in va):
+                    v["tags"].append("range_starts_on_odd_value_above_2^53")
         else:
             v["tags"].append("result_" + impl["err"])
             if in_dom:
@@ -524,6 +662,14 @@ def utils_cases(ctx, n):
         reqs.append({"suite": "c05", "op": "overlap", "a0": a0, "a1": a1, "b0": b0, "b1": b1})
         want.append(bool(slices_overlap(slice(a0, a1), slice(b0, b1))))
         v, al = rng.randint(-5, 70), rng.choice([1, 2, 3, 4, 8, 5, 16, -2, -3])
+        if rng.random() < 0.5:
+            b = rng.choice(HUGE_BASES)
+            v = rng.choice([b, 2 * b, 3 * b, b * b]) + rng.randint(-9, 9)
+            al = rng.choice([1, 2, 3, 7, 10, 2 ** 31 + 1, 2 ** 53 + 1, b + 1, b - 1, 4 * b + 3])
+            a0, b0 = a0 + rng.choice([0, b, 2 * b + 1]), b0 + rng.choice([0, b, 2 * b + 1])
+            a1, b1 = a0 + rng.choice([-1, 0, 1, b, b + 1]), b0 + rng.choice([-1, 0, 1, b, b + 1])
+            reqs[-1] = {"suite": "c05", "op": "overlap", "a0": a0, "a1": a1, "b0": b0, "b1": b1}
+            want[-1] = bool(slices_overlap(slice(a0, a1), slice(b0, b1)))
         reqs.append({"suite": "c05", "op": "align", "v": v, "a": al})
         want.append(align(v, al))
     for rq, w, g in zip(reqs, want, ctx.lean(reqs)):
